@@ -170,6 +170,20 @@ CLAIMED.update({
         design='§5 C11'),
 })
 
+CLAIMED.update({
+    'C13': dict(
+        text='Exact-arithmetic Lean model of _compute_spacing_and_direction / _setup_frame_params_from_data. Theorems: '
+             'index_min_max (least/greatest value of the rows written), spacing_uniform, '
+             'spacing_present_only_if_uniform (SPACING present => all differences equal to it, or within the documented '
+             'tolerance of the median written), direction_sense, direction_only_without_spacing, user_values_unchanged, '
+             'single_row. Tie: decoded FRAME attributes of real files for all 8 dtypes x value shapes x all short '
+             'sequences over a small alphabet vs the model; oracle in exact Fractions.',
+        note='PARTIAL: numpy float rounding / NaN ordering outside the model (float data is dyadic). KNOWN FINDING: derived '
+             'values persist into the next write of the same specification.',
+        technique='Lean 4 proof (decision logic over exact arithmetic) + correspondence + exact-arithmetic oracle',
+        design='§5 C13'),
+})
+
 PENDING_REASON = 'check not built yet in this revision (model layer under construction); see DESIGN.md §12 build order'
 
 
